@@ -423,17 +423,17 @@ End GEffects.
 (* ------------------------------------------------------------------ the graphs of the library *)
 Lemma instances_disciplined :
   gdisc (g_mesh false false) = true /\ gdisc (g_mesh true false) = true /\ gdisc g_fit = true /\
-  gdisc (g_chain false) = true /\ gdisc g_interf = true.
+  gdisc (g_chain false) = true /\ gdisc g_interf = true /\ gdisc g_wtilde = true.
 Proof. vm_compute. repeat split. Qed.
 Lemma mutant_graphs_not_disciplined :
   gdisc (g_mesh false true) = false /\ gdisc (g_mesh true true) = false /\ gdisc (g_chain true) = false.
 Proof. vm_compute. repeat split. Qed.
 
 Lemma instance_reads_pure (k : nat) (vf : vfn) (reads : list nat) :
-  (k < 5)%nat -> gobservations (ginstance k) vf reads = map (gspec (ginstance k) vf) reads.
+  (k < 6)%nat -> gobservations (ginstance k) vf reads = map (gspec (ginstance k) vf) reads.
 Proof.
   intros Hk. apply graph_reads_pure.
-  destruct k as [|[|[|[|[|k]]]]]; try lia; vm_compute; reflexivity.
+  destruct k as [|[|[|[|[|[|k]]]]]]; try lia; vm_compute; reflexivity.
 Qed.
 
 (* refutations: the two defect classes are order dependent in the machine *)
